@@ -122,9 +122,10 @@ var c12Alphabet = []uciCmd{
 	{"position fen " + lcFens["D"], "position", lcFens["D"]},
 	{"position fen " + lcFens["A"] + " moves a1b1 e2d2", "position", refchess.MustFEN(lcFens["A"]).Make(mustUci(lcFens["A"], "a1b1")).Make(refchess.Move{From: 12, To: 11}).FEN()},
 	{"go depth 1", "go-timed", ""},
-	{"go movetime 25 depth 1", "go-timed", ""},
+	{"go movetime 65 depth 1", "go-timed", ""}, // answered at once (depth 1), long before its 45 ms budget runs out
 	{"go infinite depth 1", "go-infinite", ""},
 	{"go ponder wtime 300 btime 300 depth 1", "go-ponder", ""},
+	{"go ponder depth 1", "go-ponder", ""}, // pondering without time control: ponderhit turns it into a search that ends at once
 	{"stop", "stop", ""},
 	{"ponderhit", "ponderhit", ""},
 	{"<await bestmove>", "await", ""},
@@ -238,6 +239,9 @@ func c12Body(prog []int, out **uciSession) func() {
 		}
 		// close the session
 		if st == stInfinite || st == stPonder {
+			// the GUI lets the search run for a while before it stops it (long enough for the budget of an earlier
+			// time-controlled search to run out): nothing may answer it meanwhile
+			sched.Sleep(60 * time.Millisecond)
 			sched.Record("release", fmt.Sprintf("%d best=%d", gos, s.best))
 			s.send("stop")
 			st = stTimed
@@ -309,9 +313,10 @@ func c12Oracle(prog []int, x *sched.Exec, sess *uciSession) []lcVerdict {
 	type pend struct {
 		kind     string
 		released bool
+		goT      time.Duration
 	}
 	var open *pend
-	timedBefore, lastKind := false, ""
+	var timedBestT time.Duration = -1 // virtual time of the last bestmove of a time-controlled (or ponder) search
 	isreadyOpen := false
 	var lastFenCmd string
 	for _, e := range x.Events {
@@ -319,11 +324,8 @@ func c12Oracle(prog []int, x *sched.Exec, sess *uciSession) []lcVerdict {
 		case "go":
 			gos++
 			f := strings.Fields(e.Arg)
-			if open == nil && lastKind == "go-timed" || lastKind == "go-ponder" {
-				timedBefore = true
-			}
-			open = &pend{kind: f[1]}
-			lastKind = f[1]
+			open = &pend{kind: f[1], goT: e.T}
+
 		case "release":
 			if open != nil {
 				open.released = true
@@ -336,11 +338,16 @@ func c12Oracle(prog []int, x *sched.Exec, sess *uciSession) []lcVerdict {
 				}
 				if open != nil && (open.kind == "go-infinite" || open.kind == "go-ponder") && !open.released {
 					key := "bestmove-before-stop:" + open.kind
-					if timedBefore {
-						// an earlier time-controlled search leaves its timer thread behind (the open C14 finding)
+					if timedBestT >= 0 && (open.goT-timedBestT <= lcPollWindow || x.Deviations() > 0) {
+						// the open C14 finding seen through UCI: this go arrived within one polling period (5 ms) after the
+						// bestmove of an earlier time-controlled search (or the old timer thread was preempted / starved in this
+						// schedule), whose timer thread lives on and stops this search
 						key = "bestmove-before-stop:leftover-timer-of-earlier-search"
 					}
 					v = append(v, lcVerdict{key, fmt.Sprintf("%s answered at t=%v before stop/ponderhit was sent", open.kind, e.T)})
+				}
+				if open != nil && (open.kind == "go-timed" || open.kind == "go-ponder") {
+					timedBestT = e.T
 				}
 				open = nil
 			}
@@ -760,6 +767,8 @@ func c12RealSearches(run *vl.Run) {
 		{"position fen " + lcFens["B"], "go infinite", "<idle>", "isready", "stop", "<await>"},
 		{"position fen " + lcFens["C"], "go ponder wtime 200 btime 200", "<idle>", "ponderhit", "<await>"},
 		{"position fen " + lcFens["C"], "go ponder wtime 200 btime 200", "<idle>", "stop", "<await>", "go movetime 25", "<await>"},
+		{"position fen " + lcFens["C"], "go ponder", "<idle>", "ponderhit", "<await>"},
+		{"position fen " + lcFens["C"], "go ponder depth 2", "<idle>", "ponderhit", "<await>", "go ponder nodes 500", "<idle>", "ponderhit", "<await>"},
 		{"position startpos", "go wtime 150 btime 150 movestogo 10", "<await>", "position startpos moves e2e4", "go wtime 100 btime 150 movestogo 10", "<await>"},
 		{"position fen " + lcFens["A"], "go searchmoves a1b1 depth 2", "<await>", "go depth 2 searchmoves a1a2 a1b2", "<await>"},
 		{"position startpos", "go infinite searchmoves g1f3 b1c3", "<idle>", "stop", "<await>"},
